@@ -115,6 +115,18 @@ def run(res, tier):
         ok = ok and g and stored and setv
     res.ob('RE-ASK', f.where(), 'GetPulseTimeAux asks GetPulseTime() exactly when the node is invalid, stores the answer and marks it valid', ok, function=f.q, key='RE-ASK|%s|ask' % f.q,
            message='GetPulseTimeAux no longer re-asks an invalidated node (or no longer stores/validates the answer)')
+    # RE-ASK (stable on return): user callbacks run inside GetPulseTimeAux — the node's own GetPulseTime() and, through the recursive calls, those of its descendants — may call
+    # InvalidatePulseTime() on THIS node.  The node must therefore look at its own flag again after the last such call, or it returns with a request it never asked about
+    # (for the root there is no parent list to be put on: the wake-up time reported for this pass ignores the request).
+    selftests = [x for x in f.walk() if this_field(x, '_myScheduledTimeValid') and not any(a['k'] == 'BinaryOperator' and a.get('op') == '=' and a['ch'][0] is x for a in [x.parent] if a is not None)]
+    cbs = [c for c in f.walk() if c['k'] == 'CXXMemberCallExpr' and c.get('q') in (PN + '::GetPulseTime', PN + '::GetPulseTimeAux')]
+    for c in cbs:
+        what = 'own GetPulseTime()' if c.get('q') == PN + '::GetPulseTime' else 'a child\'s GetPulseTimeAux()'
+        okr, path = P.must_follow(f, c, selftests) if selftests else (False, None)
+        res.ob('RE-ASK', f.where(c), 'GetPulseTimeAux: after %s (a user callback) the node re-examines its own valid flag before it returns' % what, okr, function=f.q,
+               key='RE-ASK|%s|stable-on-return:%s' % (f.q, 'own' if c.get('q') == PN + '::GetPulseTime' else 'child'),
+               message='GetPulseTimeAux returns after %s without looking at _myScheduledTimeValid again: a callback that invalidates this node (e.g. a child asking its parent to wake up earlier) '
+                       'leaves the request unasked, and for a root node the wake-up time reported for this pass ignores it' % what)
     # ------------------------------------------------------------------ AGGREGATE
     res.rule('AGGREGATE', '_aggregatePulseTime is written only in GetPulseTimeAux (and the constructor) as muscleMin(_myScheduledTime, GetFirstScheduledChildTime()); the caller\'s minimum is lowered to it', floor=2)
     aw = []
@@ -281,7 +293,20 @@ def run(res, tier):
     kids = [c for c in f.walk() if c.is_call() and (c.get('q') or '') == PN + '::GetPulseTimeAux']
     if not own or not kids:
         raise AnalysisBroken('RE-ASK: GetPulseTimeAux: own GetPulseTime() / recursive calls not found')
-    bad = any(P.pos_of(f, k_) and P.pos_of(f, o_) and ((P.pos_of(f, k_)[0] == P.pos_of(f, o_)[0] and P.pos_of(f, k_)[1] < P.pos_of(f, o_)[1]) or C.can_reach(f, P.pos_of(f, k_), set([P.pos_of(f, o_)]))) for k_ in kids for o_ in own)
+    # after the node's own GetPulseTime() (a user callback that may invalidate or attach children) the pending list is examined again on every path to the exit: the test of the loop
+    # that drains the children follows the callback.  (The callback may be asked again later, in a re-ask loop; what matters is that a drain test follows every ask.)
+    drain_tests = []
+    for (h_, body_) in C.natural_loops(f):
+        if any(P.pos_of(f, k_) and P.pos_of(f, k_)[0] in body_ for k_ in kids) and not any(P.pos_of(f, o_) and P.pos_of(f, o_)[0] in body_ for o_ in own):
+            cnd = f.blocks[h_].cond
+            if cnd is not None and cnd in f.nodes:
+                drain_tests.append(f.nodes[cnd])
+    # the same test spelled a second time (`if (firstNeedy) while (firstNeedy) …`) is a drain test too
+    keys_ = set(A.render_key(A.bool_polarity(t_, True)[0]) for t_ in drain_tests)
+    for blk_ in f.blocks.values():
+        if blk_.cond is not None and blk_.cond in f.nodes and A.render_key(A.bool_polarity(f.nodes[blk_.cond], True)[0]) in keys_ and f.nodes[blk_.cond] not in drain_tests:
+            drain_tests.append(f.nodes[blk_.cond])
+    bad = not drain_tests or not all(P.must_follow(f, o_, drain_tests)[0] for o_ in own)
     res.ob('RE-ASK', f.where(own[0]), 'GetPulseTimeAux asks the node itself before it drains the children awaiting recalculation', not bad, function=f.q, key='RE-ASK|%s|self-before-children' % f.q,
            message='GetPulseTimeAux drains the pending children before calling the node\'s own GetPulseTime(): a child that the callback invalidates or attaches becomes pending after the list was emptied, '
                    'its time never reaches the root and it is never pulsed')
